@@ -257,6 +257,18 @@ def run_case(case):
     kw = dict(h=h, lh=lh, prox_uh=prox, argsh=argsh, argsprox=argsprox)
     if cfg.get("lower") is not None:
         kw["bounds"] = (lo.copy(), hi.copy())
+    box_as_projection = bool(cfg.get("lower") is not None and not cfg.get("scaling") and case["i"] % 5 == 4)
+    if box_as_projection:
+        # the same box handed over as a projection instead of as bounds: the regularised step and the criticality measure then take
+        # their convex-set branches, each of which passes the extra arguments on separately. Judged on the pass-through clause only
+        # (the optimality clause is stated for bounds)
+        kw.pop("bounds")
+        kw["projections"] = [lambda w, lo_=lo.copy(), hi_=hi.copy(): np.minimum(np.maximum(w, lo_), hi_)]
+        if mode != "both":
+            mode = "both"
+            argsh, argsprox = (SH, 2.5), (SP, "tag")
+            kw["argsh"], kw["argsprox"] = argsh, argsprox
+        st["box_as_projection_runs"] = 1
     if cfg.get("scaling"):
         kw["scaling_within_bounds"] = True
     if cfg.get("maxfun"):
@@ -309,6 +321,9 @@ def run_case(case):
     if run.timeout:
         res["inconclusive"].append("watchdog")
         return res
+    if run.exc is not None and box_as_projection and isinstance(run.exc, RuntimeError) and "initial directions" in str(run.exc):
+        st["box_as_projection_startup_failures"] = 1       # the convex start-up's own finding (C07), not a matter of this check
+        return res
     if run.exc is not None:
         res["viol"].append(V("exception", "regularised solve raised %r at %s" % (run.exc, engine.exc_line(run.exc)), tb=run.tb,
                              known=classify("exception", cfg, np.inf, 0, None)))
@@ -321,6 +336,8 @@ def run_case(case):
     res["viol"].extend(hookv)
     if counts["h"] < 1 or counts["prox"] < 1:
         res["viol"].append(V("regulariser-never-called", "h called %d times, prox_uh %d times" % (counts["h"], counts["prox"])))
+    if box_as_projection:
+        return res
     bv, _ = oracles.box_violations(run, lo, hi, limit=1)
     res["viol"].extend(bv)
     if not cert:
